@@ -177,6 +177,25 @@ CHECKS.update({
         note='Darwin constants transcribed from memory of XNU headers (only certain entries used)',
         design='5/C18'),
 })
+CHECKS.update({
+    'C11': dict(
+        technique='TLC model checking of Flags_MC over frozen Darwin tables (every subset of declared bits per family, '
+                  'undeclared bits, every multi-bit field value, ioctl field grid; three negative controls); real '
+                  'helpers and renderings evaluated on the same words and validated by Flags!FlagVerdict / IocVerdict in TLC',
+        text='Words are sets of bit positions, so "every subset of declared bits" is literally enumerated on the '
+             'transcription of the helper algorithms; the code is bound by validating what it shows for each word.',
+        note='families with > 16 declared bits: subsets of size <= 2 and complements + random words; ioctl: each field '
+             'exhaustively against representatives, not all 2^32 words; undefined field values are wildcards',
+        design='5/C11'),
+    'C17': dict(
+        technique='TLC evaluation of the table invariants on the decoder configuration extracted from the working tree '
+                  '(Tables.tla) and model checking of the lookup design (Tables_MC); twin decoders rendered on seeded '
+                  'tuples and compared',
+        text='All 469 registered names, all table lines and all decoder functions are enumerated (a finite, complete '
+             'space); twin equivalence is sampled over argument tuples.',
+        note='"registered" includes functions bound by partial or called from a registered function of the module',
+        design='5/C17'),
+})
 PENDING = {}
 
 ALL = ['C%02d' % i for i in range(1, 21)]
